@@ -58,6 +58,7 @@ class Line:
         self.text, self.origin, self.label = text, origin, label
 
 
+HINT = "@hint-unlabelled"
 LABEL_RE = re.compile(r"^\s*//\[([\w.\-@:,]*)\]\s*$")
 TICK_RE = re.compile(r"`((?:[^`])*)`")
 
@@ -422,6 +423,9 @@ def _do_extract(raw, i, unitfile, repo_root, out, log, meta, twin=False):
                 raise ExtractError("extracting a single fn out of a trait is not supported; extract the trait")
             # mod containers are flattened
     default_label = meta["default"]
+    # proof hints woven into a function without a label of their own belong to the obligations of that function's
+    # contract (not to the unit's default label): a failing hint is then reported for the property the function serves
+    contract_labels, hint_lines = {}, []
     i += 1
     while i < len(raw):
         st = raw[i].strip()
@@ -447,6 +451,10 @@ def _do_extract(raw, i, unitfile, repo_root, out, log, meta, twin=False):
             i += 1
         elif dname == "contract":
             block, i = parse_block(raw, i + 1, unitfile, default_label)
+            contract_labels.setdefault(item.scope, [])
+            for bl in block:
+                if bl.label and bl.label != default_label and bl.label not in contract_labels[item.scope]:
+                    contract_labels[item.scope].append(bl.label)
             if twin:
                 block = _twin_contract(block, f"VAC.{meta['unit']}.{item.scope or name}")
             lo, hi = item._scope_span()
@@ -460,7 +468,8 @@ def _do_extract(raw, i, unitfile, repo_root, out, log, meta, twin=False):
             # a body-less trait method declaration: clauses go in front of the `;`
             item.insert_before_brace(b, block)
         elif dname == "loop":
-            block, i = parse_block(raw, i + 1, unitfile, default_label)
+            block, i = parse_block(raw, i + 1, unitfile, HINT)
+            hint_lines.extend((bl, item.scope) for bl in block)
             (a, e), _n = item.find_anchor(ticks[0], _occ(words))
             itname = _kv(words, "it")
             if itname:
@@ -473,16 +482,23 @@ def _do_extract(raw, i, unitfile, repo_root, out, log, meta, twin=False):
             b = item.open_brace_after(a)
             item.insert_before_brace(b, block)
         elif dname in ("before", "after"):
-            block, i = parse_block(raw, i + 1, unitfile, default_label)
+            block, i = parse_block(raw, i + 1, unitfile, HINT)
+            hint_lines.extend((bl, item.scope) for bl in block)
             (a, e), _n = item.find_anchor(ticks[0], _occ(words))
-            if dname == "before":
-                li, _ = item._line_index(a)
-                item.insert_lines(li, block)
-            else:
-                li, _ = item._line_index(e - 1)
-                item.insert_lines(li + 1, block)
+            # `all`: at every occurrence (arms duplicated by @arms carry the same repo text), last first
+            for k in (range(_n, 0, -1) if "all" in words else [_occ(words)]):
+                (a, e), _ = item.find_anchor(ticks[0], k)
+                copy = [Line(l.text, l.origin, l.label) for l in block]
+                hint_lines.extend((c, item.scope) for c in copy)
+                if dname == "before":
+                    li, _ = item._line_index(a)
+                    item.insert_lines(li, copy)
+                else:
+                    li, _ = item._line_index(e - 1)
+                    item.insert_lines(li + 1, copy)
         elif dname == "bodyend":
-            block, i = parse_block(raw, i + 1, unitfile, default_label)
+            block, i = parse_block(raw, i + 1, unitfile, HINT)
+            hint_lines.extend((bl, item.scope) for bl in block)
             (a, e), _n = item.find_anchor(ticks[0], _occ(words))
             b = item.open_brace_after(a)
             close = match_bracket(mask(item.joined()), b)
@@ -526,11 +542,17 @@ def _do_extract(raw, i, unitfile, repo_root, out, log, meta, twin=False):
         elif dname == "lift":
             _lift(item, ticks, _occ(words), log, ex)
             i += 1
+        elif dname == "arms":
+            block, i = parse_block(raw, i + 1, unitfile, HINT)
+            hint_lines.extend((bl, item.scope) for bl in block)
+            (a, e), _n = item.find_anchor(ticks[0], _occ(words))
+            _arms(item, a, e, block, _kv(words, "bind", "arm"), _kv(words, "prefix"), log, ex)
         elif dname == "bindtail":
             # @bindtail `EXPR` `name: Type` ... @end : a tail expression EXPR becomes
             #   { let name: Type = EXPR;  <ghost block>  name }
             # so that a proof block can talk about the value before it is returned (let-introduction, weaving only)
-            block, i = parse_block(raw, i + 1, unitfile, default_label)
+            block, i = parse_block(raw, i + 1, unitfile, HINT)
+            hint_lines.extend((bl, item.scope) for bl in block)
             (a, e), _n = item.find_anchor(ticks[0], _occ(words))
             binder = ticks[1]
             ident = binder.split(":")[0].strip()
@@ -542,6 +564,16 @@ def _do_extract(raw, i, unitfile, repo_root, out, log, meta, twin=False):
             log.count("weave: tail expression bound to a name for a proof block")
         else:
             raise ExtractError(f"{unitfile}:{i+1}: unknown directive @{dname} inside @extract")
+    for bl, scope in hint_lines:
+        if bl.label == HINT:
+            labs = contract_labels.get(scope) or (contract_labels.get(None) if len(contract_labels) == 1 else None) \
+                or ([v for v in contract_labels.values()][0] if len(contract_labels) == 1 else None)
+            # (`~hint`: reported for the same property, but never mistaken for the obligation itself, e.g. when
+            #  matching known findings)
+            bl.label = ",".join(l + "~hint" for l in labs) if labs else default_label
+    for bl in item.lines:
+        if bl.label == HINT:
+            bl.label = default_label
     out.extend(prefix_lines)
     out.extend(item.lines)
     out.extend(suffix_lines)
@@ -715,3 +747,209 @@ def _lift(item, ticks, k, log, ex):
                          "expression": norm_ws(anchor) + " <closure> )", "replaced_by": replacement})
     log.replaced.append({"item": ex.describe(), "class": "N2", "old": norm_ws(anchor) + norm_ws(params) + " {..})",
                          "new": replacement + "  +  " + header, "count": 1})
+
+
+def _expand_or(p):
+    """all alternatives of a (comment-free) pattern, `|` distributed to the top, in Rust's left-to-right order"""
+    stack = []
+    for idx, ch in enumerate(p):
+        if ch in "([{":
+            stack.append(idx)
+        elif ch in ")]}":
+            stack.pop()
+        elif ch == "|":
+            lo = stack[-1] + 1 if stack else 0
+            # left end of the alternation: after a `,` or a field `:` at the same depth
+            d, k, start = 0, idx - 1, lo
+            while k >= lo:
+                c = p[k]
+                if c in ")]}":
+                    d += 1
+                elif c in "([{":
+                    d -= 1
+                elif d == 0 and c == ",":
+                    start = k + 1
+                    break
+                elif d == 0 and c == ":" and p[k - 1] != ":" and (k + 1 >= len(p) or p[k + 1] != ":"):
+                    start = k + 1
+                    break
+                k -= 1
+            d, k, end = 0, idx + 1, None
+            while k < len(p):
+                c = p[k]
+                if c in "([{":
+                    d += 1
+                elif c in ")]}":
+                    if d == 0:
+                        end = k
+                        break
+                    d -= 1
+                elif d == 0 and c == ",":
+                    end = k
+                    break
+                k += 1
+            if end is None:
+                end = len(p)
+            seg = p[start:end]
+            alts, d, cur = [], 0, ""
+            for c in seg:
+                if c in "([{":
+                    d += 1
+                elif c in ")]}":
+                    d -= 1
+                if c == "|" and d == 0:
+                    alts.append(cur)
+                    cur = ""
+                else:
+                    cur += c
+            alts.append(cur)
+            alts = [x.strip() for x in alts if x.strip()]
+            res = []
+            for alt in alts:
+                res.extend(_expand_or(p[:start] + " " + alt + " " + p[end:]))
+            return res
+    return [norm_ws(p)]
+
+
+def _arms(item, a, e, block, bind, prefix, log, ex):
+    """@arms `match SCRUTINEE {` bind=NAME prefix=LABELPREFIX
+         @name `TEXT` NAME     names the arm whose pattern/guard contains TEXT (exactly one arm must)
+         @hint NAME            following lines go only into that arm (before the common lines)
+         @common               following lines go into every arm
+       @end
+    Every arm `PAT [if G] => BODY` of the match becomes `PAT [if G] => { let NAME = BODY; <lines> NAME }` (a
+    let-introduction: weaving only), the woven lines carrying the label PREFIX.<arm name | armNN>, so that each arm
+    is an obligation of its own.  An arm that has both an or-pattern and a guard (unsupported by Verus) is first
+    split into one arm per alternative, in order, each with the same guard and body (normalisation N0)."""
+    txt = item.joined()
+    mt = mask(txt)
+    if mt[e - 1] != "{":
+        raise ExtractError("@arms: anchor must end with the `{` of the match")
+    close = match_bracket(mt, e - 1)
+    # ---- parse the directive block
+    names, hints, common, cur = [], {}, [], None
+    for l in block:
+        st = l.text.strip()
+        if st.startswith("@name"):
+            _d, t, w = _split_directive(l.text)
+            names.append((norm_ws(t[0]), w[0]))
+            cur = None
+        elif st.startswith("@hint"):
+            cur = hints.setdefault(st.split()[1], [])
+        elif st.startswith("@common"):
+            cur = common
+        elif cur is not None:
+            cur.append(l)
+        elif st and not st.startswith("//"):
+            raise ExtractError("@arms: text before @hint/@common")
+    # ---- locate the arms
+    arms = []
+    pos = e
+    while True:
+        while pos < close and mt[pos] in " \n\t":
+            pos += 1
+        if pos >= close:
+            break
+        arrow = find_top_level(mt, "=", pos)
+        while arrow >= 0 and not mt.startswith("=>", arrow):
+            arrow = find_top_level(mt, "=", arrow + 1)
+        if arrow < 0 or arrow > close:
+            raise ExtractError("@arms: arm without `=>`")
+        b = arrow + 2
+        while mt[b] in " \n\t":
+            b += 1
+        if mt[b] == "{":
+            bend = match_bracket(mt, b) + 1
+        else:
+            bend = find_top_level(mt, ",", b)
+            if bend < 0 or bend > close:
+                bend = close
+                while mt[bend - 1] in " \n\t":
+                    bend -= 1
+        nxt = bend
+        while nxt < close and mt[nxt] in " \n\t":
+            nxt += 1
+        if nxt < close and mt[nxt] == ",":
+            nxt += 1           # (the arm's own trailing comma)
+        else:
+            nxt = bend         # (a block-bodied arm without a comma)
+        arms.append((pos, arrow, b, bend, nxt))
+        pos = nxt
+    # ---- rewrite, last arm first
+    used = set()
+    for k in range(len(arms), 0, -1):
+        pos, arrow, b, bend, nxt = arms[k - 1]
+        head = mt[pos:arrow]
+        g = re.search(r"\bif\b", head)
+        # (a guard's `if` is at bracket depth 0 of the arm head)
+        gpos = None
+        d = 0
+        for j, c in enumerate(head):
+            if c in "([{":
+                d += 1
+            elif c in ")]}":
+                d -= 1
+            elif d == 0 and head.startswith("if", j) and (j == 0 or not (head[j - 1].isalnum() or head[j - 1] == "_")) \
+                    and not (head[j + 2].isalnum() or head[j + 2] == "_"):
+                gpos = j
+                break
+        pat = head[:gpos] if gpos is not None else head
+        guard = txt[pos + gpos:arrow] if gpos is not None else ""
+        whole = norm_ws(txt[pos:arrow])
+        aname = None
+        for snippet, nm in names:
+            if snippet in norm_ws(mt[pos:arrow]) or snippet in whole:
+                if aname is not None:
+                    raise ExtractError(f"@arms: two @name snippets match arm {k}")
+                aname = nm
+                if nm in used:
+                    raise ExtractError(f"anchor lost in {ex.describe()}: @name `{snippet}` matches more than one arm")
+                used.add(nm)
+        label = f"{prefix}.{aname or 'arm%02d' % k}"
+        la, ca = item._line_index(pos)
+        lb, cb = item._line_index(bend - 1)
+        if item.lines[la].text[:ca].strip() or item.lines[lb].text[cb + 1:].strip(" ,"):
+            raise ExtractError(f"@arms: arm {k} does not occupy whole lines (unsupported layout)")
+        o_first = item.lines[la].origin
+        larrow, carrow = item._line_index(arrow)
+        body_lines = []
+        for li in range(larrow, lb + 1):
+            l = item.lines[li]
+            t = l.text
+            if li == lb:
+                t = t[:cb + 1]
+            if li == larrow:
+                t = " " * (carrow + 2) + t[carrow + 2:]
+            body_lines.append((t, l.origin, l.label))
+        woven = [Line(l.text, l.origin, label) for l in hints.get(aname, [])] + [Line(l.text, l.origin, label) for l in common]
+        def one_arm(head_lines):
+            out_l = list(head_lines)
+            out_l.append(Line(f"=> {{ let {bind} =", ("gen", "arm result bound to a name (weaving)")))
+            out_l.extend(Line(t, o, lb_) for (t, o, lb_) in body_lines)
+            out_l.append(Line(";", ("gen", "arm result bound to a name (weaving)")))
+            out_l.extend(Line(l.text, l.origin, l.label) for l in woven)
+            out_l.append(Line(f"{bind} }},", ("gen", "arm result bound to a name (weaving)")))
+            return out_l
+        has_or = "|" in pat.replace("||", "  ")
+        new_lines = []
+        if has_or and gpos is not None:
+            alts = _expand_or(pat)
+            for alt in alts:
+                new_lines.extend(one_arm([Line(alt + " " + norm_ws(guard), o_first)]))
+            log.count("N0 or-pattern arm with a guard split into one arm per alternative")
+            log.replaced.append({"item": ex.describe(), "class": "N0", "old": whole,
+                                 "new": " ;; ".join(alts) + "  (each with the same guard and body)", "count": len(alts)})
+        else:
+            head_lines = []
+            for li in range(la, larrow + 1):
+                l = item.lines[li]
+                t = l.text[:carrow] if li == larrow else l.text
+                head_lines.append(Line(t, l.origin, l.label))
+            new_lines = one_arm(head_lines)
+        # the trailing comma (if any) lives between bend and nxt: drop it with the old lines
+        lend, _ = item._line_index(max(nxt - 1, bend - 1))
+        item.lines[la:lend + 1] = new_lines
+    for snippet, nm in names:
+        if nm not in used:
+            raise ExtractError(f"anchor lost in {ex.describe()}: @name `{snippet}` matches no arm")
+    log.count("weave: match arm results bound to a name, one labelled obligation per arm")
